@@ -143,7 +143,7 @@ mod verif_c05_headers {
     /// cid-length generality of the generic `WriteHeader<LongHeader<S>>::put_header`, `LongHeader<S>::size`
     /// and `be_header` code; the other long-header harnesses vary the type-specific part.
     #[kani::proof]
-    #[kani::unwind(3)]
+    #[kani::unwind(6)]
     fn handshake_zero_rtt_roundtrip_contract() {
         let (dcid, dl) = any_cid();
         let (scid, sl) = any_cid();
@@ -253,7 +253,7 @@ mod verif_c05_headers {
     /// Retry header: token 0..=4 bytes, any integrity tag, ids 8 and 5 bytes (no announced size: a Retry is
     /// never written through PacketWriter).
     #[kani::proof]
-    #[kani::unwind(3)]
+    #[kani::unwind(6)]
     fn retry_roundtrip_contract() {
         let (dcid, scid) = (fixed_cid::<8>(), fixed_cid::<5>());
         let token = any_token::<4>();
